@@ -2,7 +2,7 @@ SPECIFICATION Spec
 CONSTANTS
   DataKeys = {2, 4}
   Targets = {4}
-  SeqNums = {0, 1}
+  SeqNums = {0, 2}
   Payloads = {"v1"}
   MaxIns = 2
   MaxH = 2
